@@ -18,8 +18,9 @@
 //   vnav both <world.json> <depth> <maxcalls> <seed> <nwalks> <len> <out.ndjson>   explore, then walk
 //   vnav replay <world.json> <script.json> <out.ndjson>           one given op sequence
 //   vnav dump <world.json> <out.org.json>                         the OrangeInput that was built
-//   vnav fixture <file.org.json> <seed> <nrays> <nwalks> <npoints> <out.ndjson> [focus.json]
-//        straight rays, random protocol walks and safety probes on a bundled fixture (raw doubles;
+//   vnav fixture <file.org.json> <seed> <nrays> <nwalks> <npoints> <nturns> <out.ndjson> [focus.json]
+//        straight rays, random protocol walks, safety probes and boundary-turn histories (a fresh
+//        direction on every boundary reached before cross_boundary) on a geometry file (raw doubles;
 //        tools/oracle_geo.py adds the environment facts before TLC sees the trace)
 #include <array>
 #include <cmath>
@@ -1216,6 +1217,96 @@ struct FixtureDriver
         }
     }
 
+    // a fresh direction for a track sitting on a boundary it reached along `arr`: generic, turned
+    // back, slightly deflected, or nearly perpendicular to the arrival direction (which is nearly
+    // tangent to the surface whenever the arrival was nearly normal) with a small component of
+    // either sign along it
+    Real3 turn_dir(Real3 const& arr)
+    {
+        double c = u01();
+        Real3 r = random_dir();
+        Real3 d;
+        if (c < 0.3)
+            return r;
+        if (c < 0.5)
+            for (int k = 0; k < 3; ++k)
+                d[k] = -arr[k] + 0.3 * r[k];
+        else if (c < 0.65)
+            for (int k = 0; k < 3; ++k)
+                d[k] = arr[k] + 0.3 * r[k];
+        else
+        {
+            double ra = dot_product(r, arr);
+            double deltas[] = {0.003, 0.03, 0.2};
+            double delta = deltas[rng() % 3] * ((rng() & 1) ? 1 : -1);
+            for (int k = 0; k < 3; ++k)
+                d[k] = (r[k] - ra * arr[k]);
+            d = make_unit_vector(d);
+            for (int k = 0; k < 3; ++k)
+                d[k] += delta * arr[k];
+        }
+        return make_unit_vector(d);
+    }
+
+    // boundary-turn history: aim at a feature, and on EVERY boundary reached change direction
+    // (with probability 3/4) before cross_boundary; sometimes also on the crossed boundary; then
+    // carry on, so that the volume after the crossing and the following segments are judged
+    void turn(int hid, int maxb)
+    {
+        FProto a;
+        Real3 p = random_pos();
+        Real3 d = random_dir();
+        if (!focus.empty())
+        {
+            auto const& b = focus[rng() % focus.size()];
+            Real3 t;
+            for (int k = 0; k < 3; ++k)
+                t[k] = b.first[k] + (b.second[k] - b.first[k]) * (0.15 + 0.7 * u01()) - p[k];
+            if (norm(t) > 0)
+                d = make_unit_vector(t);
+        }
+        if (!init(p, d, a, hid, "turn"))
+            return;
+        for (int nb = 0; nb < maxb && a.ph != 'O'; ++nb)
+        {
+            find(a, 0);
+            if (a.ph == 'O' || !(a.has && a.nb))
+                break;
+            if (u01() < 0.25)
+            {
+                move_i(a, a.nd * (0.2 + 0.6 * u01()));
+                find(a, 0);
+                if (a.ph == 'O' || !(a.has && a.nb))
+                    break;
+            }
+            Real3 arr = nav.view().dir();
+            move_b(a);
+            if (u01() < 0.75)
+            {
+                set_dir(a, turn_dir(arr));
+                if (u01() < 0.3)
+                    set_dir(a, turn_dir(arr));
+            }
+            cross(a);
+            if (a.ph == 'O')
+                break;
+            if (u01() < 0.3)
+            {
+                // turn on the crossed boundary; a reversal gives a zero step: turn again
+                for (int tries = 0; tries < 3; ++tries)
+                {
+                    set_dir(a, turn_dir(nav.view().dir()));
+                    find(a, 0);
+                    if (a.ph == 'O' || a.has)
+                        break;
+                }
+                if (a.ph == 'O')
+                    break;
+                set_dir(a, nav.view().dir());  // (clears the cached step; same direction)
+            }
+        }
+    }
+
     void probe(int hid, int ndirs)
     {
         // safety at an interior point, then rays in many directions from the same point
@@ -1243,7 +1334,7 @@ struct FixtureDriver
     }
 };
 
-int run_fixture(std::string const& file, unsigned long seed, int nrays, int nwalks, int nprobes,
+int run_fixture(std::string const& file, unsigned long seed, int nrays, int nwalks, int nprobes, int nturns,
                 verif::NdjsonWriter& out, json const& focus)
 {
     Geo geo;
@@ -1278,6 +1369,8 @@ int run_fixture(std::string const& file, unsigned long seed, int nrays, int nwal
         fd.walk(hid++, 60);
     for (int i = 0; i < nprobes; ++i)
         fd.probe(hid++, 64);
+    for (int i = 0; i < nturns; ++i)
+        fd.turn(hid++, 10);
     std::cerr << "fixture " << file << ": histories " << hid << " calls " << fd.calls << std::endl;
     return 0;
 }
@@ -1352,13 +1445,13 @@ int main(int argc, char** argv)
             out(json{{"e", "Close"}});
             return rc;
         }
-        if (mode == "fixture" && (argc == 8 || argc == 9))
+        if (mode == "fixture" && (argc == 9 || argc == 10))
         {
-            verif::NdjsonWriter out(argv[7]);
+            verif::NdjsonWriter out(argv[8]);
             g_out = &out;
-            json focus = argc == 9 ? load_json(argv[8]) : json::array();
+            json focus = argc == 10 ? load_json(argv[9]) : json::array();
             int rc = run_fixture(argv[2], std::strtoul(argv[3], nullptr, 10), std::atoi(argv[4]), std::atoi(argv[5]),
-                                 std::atoi(argv[6]), out, focus);
+                                 std::atoi(argv[6]), std::atoi(argv[7]), out, focus);
             out(json{{"e", "Close"}});
             return rc;
         }
